@@ -557,7 +557,8 @@ class NDNApp:
             return None
         if validator is None:
             raise ValueError('Data Validator must not be None when expressing an Interest.')
-        final_name = enc.Name.normalize(final_name)
+        # The pending Interest keeps its own copy of the name: the caller may reuse its buffers while it waits
+        final_name = [bytes(c) for c in enc.Name.normalize(final_name)]
         future = aio.get_running_loop().create_future()
         # Handle implicit SHA256
         if enc.Component.get_type(final_name[-1]) == enc.Component.TYPE_IMPLICIT_SHA256:
